@@ -14,6 +14,7 @@
 import CSD.Lemmas.Dups
 import CSD.Spec
 import CSD.Lemmas.FM16
+import CSD.Lemmas.FM19
 import CSD.Generated.Bodies
 import CSD.Model.SourceText
 
@@ -63,6 +64,20 @@ theorem fmindex_substring_search_exact {S : List Str} {L : List FM.Row} {d : FM.
     (hne : p ≠ []) : d.locateSubstr p = some (Spec.substrIds S p) :=
   FM.locateSubstr_spec hv hd hS p hp hne
 
+/-- **`StringDictionaryFMINDEX::extractSubstr` is exact** (`SSA::locate`, `std::sort`, the sentinel `0` behind
+the last ID, then `IteratorDictStringFMINDEXDuplicates`: `extract_id` of `ids[processed]`, then
+`do processed++ while (ids[processed-1] == ids[processed])`): NULL when no member contains the pattern;
+otherwise the strings of exactly the members that contain it, each once however often it occurs, in ID order.
+The duplicate-skipping loop stops at the sentinel because no ID is 0 (an ID 0 is a fault of the model), and
+every `extract_id` stays inside the index and its result buffer. -/
+theorem fmindex_extract_substr_exact {S : List Str} {L : List FM.Row} {d : FM.Dict} (hv : validDict S = true)
+    (hd : FM.DictOK S L d) (hS : FM.BuiltS (FM.mkText S) L d.ix) (hml : ∀ s ∈ S, s.length < d.maxlength)
+    (p : Str) (hp : p.all validByte = true) (hne : p ≠ []) :
+    d.extractSubstr p =
+      some (if Spec.substrIds S p = [] then none
+            else some ((Spec.substrIds S p).map fun id => FM.symsOf (S[id - 1]?.getD []))) :=
+  FM.extractSubstr_spec hv hd hS hml p hp hne
+
 /-- The sorted-and-deduplicated list of the model is what the duplicate-skipping iterator yields. -/
 theorem fmindex_dedup_is_the_iterator (l : List Nat) : FM.dedupAdj l = CSD.Dups.dedupAdj l := FM.dedupAdj_eq_dups l
 
@@ -92,7 +107,9 @@ theorem fm_models_match_source_text :
     Generated.body_FMINDEX_extract = SourceText.body_FMINDEX_extract ∧
     Generated.body_FMINDEX_locatePrefix = SourceText.body_FMINDEX_locatePrefix ∧
     Generated.body_FMINDEX_locateSubstr = SourceText.body_FMINDEX_locateSubstr ∧
-    Generated.body_FMINDEX_build_ssa = SourceText.body_FMINDEX_build_ssa :=
-  ⟨rfl, rfl, rfl, rfl, rfl, rfl, rfl, rfl, rfl, rfl, rfl, rfl⟩
+    Generated.body_FMINDEX_build_ssa = SourceText.body_FMINDEX_build_ssa ∧
+    Generated.body_FMINDEX_extractSubstr = SourceText.body_FMINDEX_extractSubstr ∧
+    Generated.body_FMIterDup_next = SourceText.body_FMIterDup_next :=
+  ⟨rfl, rfl, rfl, rfl, rfl, rfl, rfl, rfl, rfl, rfl, rfl, rfl, rfl, rfl⟩
 
 end CSD.Props.C05
